@@ -290,8 +290,17 @@ func applyFault(t *core.Tape, f int, rec []byte, foreign func() []byte) []byte {
 		i := t.Choose(n + 1)
 		out := append([]byte(nil), b[:i]...)
 		out = append(out, r...)
-		if i < n && t.Bool(1, 2) {
-			i++
+		switch t.Choose(3) {
+		case 0: // inserted
+		case 1: // replaces one byte
+			if i < n {
+				i++
+			}
+		default: // replaces as many bytes as it is long: the record keeps its length
+			i += len(r)
+			if i > n {
+				i = n
+			}
 		}
 		return append(out, b[i:]...)
 	case FSpace:
